@@ -272,3 +272,75 @@ PROPS['C15'] = {
     'trusted': ['float64 arithmetic and package math of the installed Go toolchain as the reference for special-operand result classes'],
     'validate_per_harness': 5,
 }
+
+
+# ---------------------------------------------------------------- C10
+def c10_jobs(tier, seed):
+    import random
+    rng = random.Random(seed)
+    jobs = [('vh_c10_from', [], CUT)]
+    es = list(range(-36, 41)) + [100, 101, 6111]
+    if tier == 'quick':
+        keep = {-36, -35, -19, -18, -1, 0, 1, 9, 10, 18, 19, 20, 38, 39, 40, 100, 101, 6111}
+        keep.update(rng.sample([e for e in range(-36, 41) if e not in keep], 4))
+        es = sorted(keep)
+    for which in range(4):
+        for e in es:
+            jobs.append(('vh_c10_fixed', [which, e], CUT))
+        for c in (1, 2, 3):
+            jobs.append(('vh_c10_fixed_special', [which, c], CUT))
+    ies = [100] + list(range(-36, 41)) + [200, 6111]
+    if tier == 'quick':
+        ies = [100, -36, -35, -20, -1, 0, 1, 19, 40, 200, 6111] + rng.sample(list(range(-34, 40)), 3)
+    for e in ies:
+        for reuse in (0, 1):
+            jobs.append(('vh_c10_int', [e, reuse], CUT))
+    res_ = list(range(-40, 41)) + [-6176, 6111]
+    if tier == 'quick':
+        res_ = [-6176, -40, -1, 0, 1, 40, 6111] + rng.sample(list(range(-39, 40)), 3)
+    for e in res_:
+        jobs.append(('vh_c10_rat', [e], CUT))
+    for bits in ([64, 128, 130, 200] if tier == 'quick' else [64, 128, 130, 200, 260, 300]):
+        jobs.append(('vh_c10_fromint', [bits], CUT))
+    jobs += r_jobs([128], tier, seed, sample=4)
+    return jobs
+
+
+PROPS['C10'] = {
+    'jobs': c10_jobs,
+    'must_reach': ['C10:fits', 'C10:satlow', 'C10:sathigh', 'C10:nanpanic', 'C10:infsat', 'C10:from', 'C10:int', 'C10:rat', 'C10:fromint', 'C10:fromint0'],
+    'bounds': {'quick': 'Int64/Int32/Uint64/Uint32: exponents {-36,-35,-19,-18,-1,0,1,9,10,18,19,20,38,39,40, 6111} + 4 seeded in -36..40 individually and the regions below -36 / above 40 (symbolic exponent), coefficient and sign symbolic; NaN/Inf; FromInt64/32/Uint64/32 on all inputs; Int (nil and reused big.Int with arbitrary previous value) and Rat for sampled exponents; FromInt for all integers below 2^64, 2^128, 2^130, 2^200 of either sign under every DefaultRoundingMode (rounding kernel cut, reduce128 contract checked).',
+               'thorough': 'every exponent -36..40 (+ regions, 6111) for the fixed-width conversions, Int and Rat; FromInt up to 300 bits.'},
+    'outside': 'FromInt for integers of 301 bits and more (the property mentions ~20k bits); FromRat (it is FromInt(num).Quo(FromInt(den)) and the division loops are not covered, see C02); Rat normalisation (only the denoted value is checked)',
+    'assumptions': ['math/big modelled as exact mathematical integers/rationals with the documented semantics of SetUint64, Lsh, Or, Neg, Exp, Mul, Quo (truncated), QuoRem (truncated), Sign, BitLen, Bits, Set, Rat.SetUint64/SetInt/SetFrac/Neg'],
+    'trusted': ['the math/big model in engine/intrinsics.py (validated against the real package by the native replay of random concrete runs)'],
+    'validate_per_harness': 4,
+    'job_budget': {'quick': 600, 'thorough': 3000},
+}
+
+
+# ---------------------------------------------------------------- C14
+def c14_jobs(tier, seed):
+    jobs = []
+    for cls in (0, 1, 2, 3):
+        for (bl, bc) in ((0, -1), (0, 0), (3, 15), (5, 16), (0, 32)):
+            jobs.append(('vh_c14_decompose', [cls, bl, bc], CUT))
+    for form in (1, 2, 3, 255):
+        jobs.append(('vh_c14_forms', [form], CUT))
+    ns = list(range(0, 7)) if tier == 'quick' else list(range(0, 11))
+    for n in ns:
+        for region in (0, 1, 2):
+            jobs.append(('vh_c14_compose', [n, region], CUT))
+    return jobs
+
+
+PROPS['C14'] = {
+    'jobs': c14_jobs,
+    'must_reach': ['C14:decompose', 'C14:forms', 'C14:composezero', 'C14:composeok', 'C14:composeerr'],
+    'bounds': {'quick': 'Decompose on every bit pattern (finite, Inf, NaN) with nil / short / exact / large caller buffers and the real Compose applied to its output; Compose of every coefficient byte string of length 0..6 (all bytes symbolic, leading zeros included), both signs, every int32 exponent (three regions), forms 0,1,2 and unknown forms.',
+               'thorough': 'coefficient byte strings of length 0..10.'},
+    'outside': 'coefficients longer than 10 bytes (the 17..32-byte uint256 path and the big.Int path beyond 32 bytes are not reached by the bounded strings; the property mentions several hundred bytes)',
+    'assumptions': [],
+    'validate_per_harness': 4,
+    'job_budget': {'quick': 900, 'thorough': 6000},
+}
